@@ -109,3 +109,61 @@ pub fn pick_in(k: u32, lo: u64, hi: u64) -> Option<u64> {
     }
     Some(d[a + (k as usize) % (b - a)])
 }
+
+static STRS: OnceLock<Vec<String>> = OnceLock::new();
+
+/// String dictionary: printable fragments of the string literals in the source under test (split
+/// at CR / LF, format placeholders removed). Mixed into generated header values so that data can
+/// collide with the protocol syntax the crate itself writes (a delimiter, a header name, a unit).
+pub fn strings() -> &'static [String] {
+    STRS.get_or_init(|| {
+        let mut out = BTreeSet::new();
+        let dir = std::env::var("VERIF_REPO").unwrap_or_else(|_| "/repo".into());
+        if let Ok(rd) = std::fs::read_dir(format!("{dir}/src")) {
+            let mut files: Vec<_> = rd.flatten().map(|e| e.path()).filter(|p| p.extension().map(|e| e == "rs").unwrap_or(false)).collect();
+            files.sort();
+            for f in files {
+                if f.file_name().map(|n| n == "verif.rs").unwrap_or(false) {
+                    continue;
+                }
+                let Ok(t) = std::fs::read_to_string(&f) else { continue };
+                let t = t.split("#[cfg(test)]").next().unwrap_or("").to_string();
+                for line in t.lines() {
+                    let code = line.split("//").next().unwrap_or("");
+                    let b = code.as_bytes();
+                    let mut i = 0;
+                    while i < b.len() {
+                        if b[i] == b'"' {
+                            let mut j = i + 1;
+                            let mut s = String::new();
+                            while j < b.len() && b[j] != b'"' {
+                                if b[j] == b'\\' && j + 1 < b.len() {
+                                    match b[j + 1] {
+                                        b'r' | b'n' => s.push('\n'),
+                                        b't' => s.push(' '),
+                                        c => s.push(c as char),
+                                    }
+                                    j += 2;
+                                } else {
+                                    s.push(b[j] as char);
+                                    j += 1;
+                                }
+                            }
+                            for frag in s.split('\n') {
+                                let frag = frag.replace("{}", "").replace("{:x}", "").replace("{:?}", "");
+                                let frag = frag.trim();
+                                if !frag.is_empty() && frag.len() <= 40 && frag.bytes().all(|c| (0x20..0x7f).contains(&c)) {
+                                    out.insert(frag.to_string());
+                                }
+                            }
+                            i = j + 1;
+                        } else {
+                            i += 1;
+                        }
+                    }
+                }
+            }
+        }
+        out.into_iter().take(300).collect()
+    })
+}
